@@ -6,6 +6,7 @@
 From Coq Require Import List String NArith ZArith Bool.
 Import ListNotations.
 From GMQ Require Import Broker.Model Proofs.BrokerFrames Proofs.BrokerTags Proofs.BrokerChanInv Proofs.BrokerQueueInv Proofs.BrokerReady.
+From GMQ Require Import Broker.gen.BrokerGen.
 Open Scope N_scope.
 
 (* (1) A published message that routes is appended - once - to every matched queue and changes no other queue:
@@ -81,6 +82,13 @@ Theorem C01_cancel_keeps_messages :
                    map u_qid (U s' c' h') = map u_qid (U s c' h') /\ map u_queue (U s' c' h') = map u_queue (U s c' h')).
 Proof. exact cancel_keeps_messages. Qed.
 Print Assumptions C01_cancel_keeps_messages.
+
+(* the order inside Channel.close that the atomic channel_close of the model stands on: consumers are stopped before the
+   unsettled deliveries go back (otherwise a consumer of the closing channel takes them again and they are lost with
+   the channel); read off the source on every run (translator/cmd/broker) *)
+Theorem C01_generated_close_order : close_stops_consumers_before_requeue = true.
+Proof. reflexivity. Qed.
+Print Assumptions C01_generated_close_order.
 
 (* Non-vacuity: three messages delivered to a consumer, one acked, channel closed: the other two are back, in order,
    ahead of a message published meanwhile. *)
